@@ -12,6 +12,7 @@ import SeataModel.Driver.C15
 import SeataModel.Driver.C08
 import SeataModel.Driver.C06
 import SeataModel.Driver.C05
+import SeataModel.Driver.AT
 
 open Seata.Driver
 
@@ -27,6 +28,7 @@ def dispatch (prop : String) (ws : List String) : String :=
   | "C08" => C08.handle ws
   | "C06" => C06.handle ws
   | "C05" => C05.handle ws
+  | "C01" | "C09" | "C10" | "C18" | "C03" => Seata.Driver.AT.handle ws
   | _ => "bad-prop"
 
 partial def loop (hin : IO.FS.Stream) (hout : IO.FS.Stream) : IO Unit := do
